@@ -216,10 +216,15 @@ def _worker_run(item):
     try:
         mod.work(item, col)
     except Exception:
-        col.extra["__harness_error__"] = {
-            "item": jsonable(item),
-            "trace": traceback.format_exc()[-3000:],
-        }
+        if col.violations:
+            # the implementation already misbehaved in this item; what followed (e.g. a diverging
+            # validation replay caused by uninitialised memory) is reported as a cap, not as a harness error
+            col.cap("work item aborted after violations: " + traceback.format_exc().strip().splitlines()[-1][:200])
+        else:
+            col.extra["__harness_error__"] = {
+                "item": jsonable(item),
+                "trace": traceback.format_exc()[-3000:],
+            }
     col._item = None
     _WORKER["n"] += 1
     if getattr(mod, "USES_JAX", False) and _WORKER["n"] % getattr(mod, "CLEAR_EVERY", 25) == 0:
@@ -229,8 +234,7 @@ def _worker_run(item):
             jax.clear_caches()
         except Exception:
             pass
-    col.extra.setdefault("__item_time__", 0)
-    col.extra["__item_time__"] = time.time() - t0
+    col.extra["__item_time__"] = [str(item.get("name", ""))[:80] if isinstance(item, dict) else "", round(time.time() - t0, 2)]
     return col
 
 
@@ -367,9 +371,10 @@ def main(argv=None):
             try:
                 mod.work(v["item"], c2)
             except Exception:
-                print("HARNESS-ERROR: replay of violating item raised")
-                traceback.print_exc()
-                return 2
+                if s not in c2.viol_counts:
+                    print("HARNESS-ERROR: replay of violating item raised")
+                    traceback.print_exc()
+                    return 2
             if s not in c2.viol_counts:
                 print(f"HARNESS-ERROR: violation {s} did not reproduce on replay (nondeterministic harness)")
                 return 2
@@ -405,6 +410,7 @@ def main(argv=None):
             max_depth=col.max_depth,
         )
     cov.update(col.extra)
+    cov["slowest_work_items"] = sorted([t for t in times if t], key=lambda t: -t[1])[:5]
     for k, v in col.lists.items():
         cov[k] = v[:200]
     if args.only:
@@ -446,8 +452,12 @@ def replay(mod, pid, path):
     _worker_init(mod.__name__, getattr(mod, "USES_JAX", False))
     col = Collector()
     col._item = rec["item"]
-    mod.work(rec["item"], col)
     sig = rec["signature"]
+    try:
+        mod.work(rec["item"], col)
+    except Exception:
+        if sig not in col.viol_counts:
+            raise
     print("replaying item:", json.dumps(rec["item"])[:1000])
     if sig in col.viol_counts:
         v = next(v for v in col.violations if v["signature"] == sig)
